@@ -91,6 +91,7 @@ Section WithHash.
     rewrite Elogs. cbn [bind].
     destruct (negb (state_eqb (tD t) (sum_from cd1 (trms t)))); [reflexivity|].
     rewrite (parse_all_parsed _ _ Pa), (parse_all_parsed _ _ Pr).
+    destruct (verify_ssts H disk (tadds t)) as [[]| |]; cbn [bind]; [|reflexivity..].
     assert (Eg : (negb (state_eqb (tD t) zero) && negb (match rrms e with [] => true | _ :: _ => false end)) = gc_needed t).
     { unfold gc_needed. destruct Pr; reflexivity. }
     rewrite Eg. reflexivity.
@@ -190,7 +191,7 @@ Section WithHash.
 
   (* ---------------------------------------------------------------- the verifier on the strings *)
   Lemma verify_frags_rejects_raw disk pre fr' post : forall acc, canonical acc ->
-    Forall (Forall txn_canon) pre -> frags_ok acc pre -> Forall (Forall (gc_pass H coll disk)) pre ->
+    Forall (Forall txn_canon) pre -> frags_ok acc pre -> Forall (Forall (files_pass H coll disk)) pre ->
     rejects (verify_one H coll disk fr' (log_end acc pre)) ->
     rejects (verify_frags H coll disk (map (map render) pre ++ fr' :: post) acc).
   Proof.
